@@ -236,8 +236,12 @@ class PartialModel:
         old_is_model = isinstance(v_old, self.__partial_fac__.base_model)
         new_is_model = isinstance(v_new, self.__partial_fac__.base_model)
         if old_is_model and new_is_model:
-            v_old_p = self.__partial_fac__.get_partial(type(v_old)).cast(v_old)
-            v_new_p = self.__partial_fac__.get_partial(type(v_new)).cast(v_new)
+            v_old_p, v_new_p = v_old, v_new
+            # nested values that are partials already are used as they are
+            if not isinstance(v_old, PartialModel):
+                v_old_p = self.__partial_fac__.get_partial(type(v_old)).cast(v_old)
+            if not isinstance(v_new, PartialModel):
+                v_new_p = self.__partial_fac__.get_partial(type(v_new)).cast(v_new)
             new_subclass_old = issubclass(type(v_new_p), type(v_old_p))
             old_subclass_new = issubclass(type(v_old_p), type(v_new_p))
             if new_subclass_old or old_subclass_new:
